@@ -162,6 +162,10 @@ def run_check(mod, tier, seed, jobs=None, n_runs=None, chunk=None, per_run_timeo
     done = [r for r in results if r is not None]
     cov = mod.evidence(done, tier)
     cov.setdefault("evaluations", len(done))
+    if not cov.get("samples") and done:
+        # always show at least one actual case of this run (whatever the module's own sample filter selected)
+        r0 = done[0]
+        cov["samples"] = [{k: v for k, v in r0.items() if k not in ("payload", "agg", "stats") and not isinstance(v, (bytes,))}]
     cov["runs_per_hour"] = int(len(done) / wall * 3600) if wall > 0 else 0
     cov["workers"] = jobs
     cov["known_findings_printed"] = sorted(known)
